@@ -354,3 +354,51 @@ def fact_sim(f, track, init_flags=frozenset(), on_call=None, on_edge_flags=None)
         return (flags, frozenset(newfacts))
 
     return f.simulate((init_flags, frozenset()), on_term=on_term, on_edge=on_edge)
+
+
+def flag_policy(v):
+    """Reference flag policy of the property statements C06/C07/C12 (arms in evaluation order)."""
+    if (v & (PSH | ACK)) == (PSH | ACK):
+        return 'data'
+    if v == ACK or v == RST:
+        return 'drop'
+    if v == (FIN | ACK):
+        return 'finack'
+    if (v & SYN) and (v & ~(SYN | PSH | URG | CWR | ECE)) == 0 and not ((v & CWR) and (v & ECE)):
+        return 'synack'
+    return 'drop'
+
+
+def last_set_flags(f, head):
+    """Constants of set_flags calls under an arm that are not overwritten by a later set_flags on the arm."""
+    blocks = dominated(f, head)
+    sf = [b for b in blocks if f.blocks[b]['term']['k'] == 'call' and f.blocks[b]['term']['callee'].endswith("MutableTcpPacket::<'a>::set_flags")]
+    out = []
+    for b in sf:
+        later = set()
+        for s in f.succ[b]:
+            later |= f.reachable(s)
+        if not any(o in later for o in sf if o != b):
+            out.append((b, const_val(f.arg(b, 1))))
+    return out
+
+
+def tcp_arms(F):
+    """Full classification: value -> label in {'data','drop','finack','synack','other:<..>'}, plus per-label head blocks."""
+    f, table, gf = tcp_table(F)
+    heads = collections.defaultdict(list)
+    for v, h in table.items():
+        heads[h].append(v)
+    label = {}
+    for h in heads:
+        c = classify_arm(f, h)
+        if c.startswith('reply'):
+            fl = sorted(set(v for _, v in last_set_flags(f, h)))
+            if fl == [SYN | ACK]:
+                c = 'synack'
+            elif fl == [FIN | ACK]:
+                c = 'finack'
+            else:
+                c = 'other:flags=%s' % fl
+        label[h] = c
+    return f, table, heads, label
